@@ -1,7 +1,7 @@
 (* One entry point for the correspondence check: a case line in, the model's and the spec's canonical
    result lines out.  Extracted to OCaml (ExtrOcamlBasic only) and also evaluated by vm_compute. *)
 From Coq Require Import NArith ZArith List Bool String.
-From KT Require Import Model.Show Model.Ops Model.Rows.
+From KT Require Import Model.Show Model.Ops Model.Rows Model.Pipeline.
 Import ListNotations.
 Open Scope N_scope.
 
@@ -15,7 +15,58 @@ Definition parse_table (t : list N) : list (N * N) :=
   if list_eqb t [95] then [] else
   map (fun e => match split_on 58 e with [a; b] => (parse_dec a, parse_dec b) | _ => (0, 0) end) (split_on 44 t).
 
+(* memory limits may be astronomically large (4 GiB): anything above the total input length behaves like
+   total + 1, so the limit handed to the model stays a small unary number *)
+Definition total_len (recs : list (list N)) : nat := fold_right (fun r a => (List.length r + a)%nat) 0%nat recs.
+Definition cap_mem (mem : N) (recs : list (list N)) : nat :=
+  if mem <=? N.of_nat (total_len recs) then N.to_nat mem else S (total_len recs).
+Definition hex2 (p : list N * list N) : list N * list N := (to_hex (fst p), to_hex (snd p)).
+Definition parse_nats (t : list N) : list nat := if list_eqb t [95] then [] else map parse_nat (split_on 44 t).
+
+(* file-level ops: op, then parameters, the container and thread count are for the implementation only *)
+Definition dispatch_file (toks : list (list N)) : option (list N * list N) :=
+  match toks with
+  | [op; k; norm; hdr; delim; threads; mem; writer; container; wrap; recs] =>
+      if is "ofile" op then
+        let rs := parse_hex_list recs in
+        Some (hex2 (m_ofile (parse_nat k) (flag norm) (flag hdr) (parse_hex delim) (cap_mem (parse_dec mem) rs) rs,
+                    s_ofile (parse_nat k) (flag norm) (flag hdr) (parse_hex delim) rs))
+      else if is "cov" op then
+        (* cov k bs bc norm delim threads flush container recs altrecs, positions renamed:
+           bs=norm bc=hdr norm=delim delim=threads threads=mem flush=writer recs=wrap altrecs=recs;
+           flush: 1 = the limit is 0 (flush after every record), 0 = never reached *)
+        let rs := parse_hex_list wrap in let ars := parse_hex_list recs in
+        Some (hex2 (m_cov (parse_nat k) (parse_nat norm) (parse_nat hdr) (flag delim) (parse_hex threads)
+                          (if flag writer then 0%nat else S (total_len rs)) rs ars,
+                    s_cov (parse_nat k) (parse_nat norm) (parse_nat hdr) (flag delim) (parse_hex threads) rs ars))
+      else None
+  | [op; k; hdr; delim; w; sched; recs] =>
+      if is "osched" op then
+        let rs := parse_hex_list recs in
+        let r := m_osched (parse_nat k) (flag hdr) (parse_hex delim) (parse_nat w) (parse_nats sched) rs in
+        Some (r, r)
+      else if is "ctr" op then   (* ctr k threads memf acgt container recs *)
+        let rs := parse_hex_list recs in
+        Some (m_ctr (parse_nat k) (flag w) (N.max 1 (parse_dec hdr)) [rs], s_ctr (parse_nat k) (flag w) rs)
+      else None
+  | [op; sz; threads; mem; container; recs] =>
+      if is "cgrfile" op then
+        let rs := parse_hex_list recs in Some (m_cgrfile (parse_Z sz) rs, s_cgrfile (parse_Z sz) rs)
+      else if is "s2m" op then   (* s2m w m threads container recs *)
+        let rs := parse_hex_list recs in Some (m_s2m (parse_nat sz) (parse_nat threads) rs, s_s2m (parse_nat sz) (parse_nat threads) rs)
+      else if is "m2s" op then
+        let rs := parse_hex_list recs in Some (m_m2s (parse_nat sz) (parse_nat threads) rs, s_m2s (parse_nat sz) (parse_nat threads) rs)
+      else None
+  | [op; k; sz; norm; threads; mem; container; recs] =>
+      if is "ocgrfile" op then
+        let rs := parse_hex_list recs in
+        Some (m_ocgrfile (parse_nat k) (parse_Z sz) (flag norm) rs, s_ocgrfile (parse_nat k) (parse_Z sz) (flag norm) rs)
+      else None
+  | _ => None
+  end.
+
 Definition dispatch (line : list N) : list N * list N :=
+  match dispatch_file (split_on 32 line) with Some r => r | None =>
   match split_on 32 line with
   | [op; a; b] =>
       if is "kg" op then (m_kg (parse_nat a) (parse_hex b), s_kg (parse_nat a) (parse_hex b))
@@ -40,4 +91,5 @@ Definition dispatch (line : list N) : list N * list N :=
                               s_covrow (parse_nat a) (parse_nat b) (parse_nat c) (flag d) (parse_table e) (parse_hex f))
       else unknown
   | _ => unknown
+  end
   end.
